@@ -36,6 +36,7 @@ ASSUMPTIONS = [
     "steps rejected by schema validation (SchemaValidationError / ExtensionError / SDLError) produce no schema; their side effects on the heap are still compared; any other exception, a plain SchemaError included, is a failure of the derivation",
     "about half of the object types of a source get their resolvers through the schema's registries; 12% of the sources hold one or two type objects that are instances of an application-defined subclass of ObjectType / InterfaceType / InputObjectType",
     "default values are opaque to the heap model (`dflt` = repr of the coerced value): the steps sent to the model add no input field WITH a default and remove no enum value / input field a default mentions through an extension, so `ArgKept.dflt` (the default is kept) is what the code does; defaults that must CHANGE (an extension adding a defaulted input field, T15) or that mention removed members (T13, T14) are checked by the direct oracle only (`default_cases`, `directive_cases`)",
+    "the ORDER of the `types` / `directives` dicts is compared with the model (corr:registry-order) for clone / transform / in-place / replace results without an extension in their ancestry; the order `extend_schema` gives its result is not modelled (the heap comparison itself is order-insensitive)",
     "resolver identity is by function object (every resolver of the harness is a distinct function with a stable id); the registry model compares these ids",
 ]
 TRUSTED = [
@@ -1519,6 +1520,51 @@ def to_model_request(base_world, steps, cfg):
     return {"op": "run", "cfg": cfg, "objs": base_world["objs"], "schema": base_world["schemas"][0], "steps": msteps}
 
 
+# --- named probe: python names through camel-casing (deterministic: consumes no ctx.rng) -----------------------------------
+PYNAME_PROBE_STEPS = [
+    {"op": "transform", "src": 0, "visitors": [{"k": "camel"}]},
+    {"op": "inplace", "src": 0, "visitors": [{"k": "camel"}]},
+    {"op": "clone", "src": 0},
+    {"op": "transform", "src": 3, "visitors": [{"k": "camel"}]},      # camel-casing the clone: the source's python names again
+    {"op": "transform", "src": 1, "visitors": []},                      # clone of the camel-cased result
+]
+PYNAME_PROBE_SEEDS = [(2, 2), (3, 14)] + [(3, k) for k in range(1, 80)]
+
+
+def _pyname_precondition(seed, size):
+    """The source built from (seed, size) has an input field, an argument, a field and a directive argument whose
+    python_name differs from its GraphQL name (what CamelCaseSchemaTransform must carry over: seeded C07-9, C14-1)."""
+    import random
+    from py_gql.schema import InputObjectType, InterfaceType, ObjectType
+    _, _, source = W.build_source(random.Random(seed), size, W.Funcs())
+    user = [t for n, t in source.types.items() if not n.startswith("__")]
+    inp = any(f.python_name != f.name for t in user if isinstance(t, InputObjectType) for f in t.fields)
+    comp = [t for t in user if isinstance(t, (ObjectType, InterfaceType))]
+    arg = any(a.python_name != a.name for t in comp for f in t.fields for a in f.arguments)
+    fld = any(f.python_name != f.name for t in comp for f in t.fields)
+    dr = any(a.python_name != a.name for d in source.directives.values() for a in d.arguments)
+    return inp and arg and fld and dr
+
+
+def pyname_probes(ctx, want=2):
+    """(size, steps, build_seed) of the named probe `pyname-through-camel-case`: the first `want` fixed seeds whose source
+    satisfies the precondition (a fixed list searched in order: the probe survives changes of the shared generator)."""
+    out = []
+    for size, seed in PYNAME_PROBE_SEEDS:
+        try:
+            ok = _pyname_precondition(seed, size)
+        except Exception:  # noqa
+            ok = False
+        if ok:
+            out.append((size, copy.deepcopy(PYNAME_PROBE_STEPS), seed))
+            if len(out) == want:
+                break
+    ctx.stat("probe:pyname-through-camel-case:sources=%d" % len(out))
+    if len(out) < want:
+        ctx.notes.append("probe pyname-through-camel-case: only %d of %d sources satisfy the precondition" % (len(out), want))
+    return out
+
+
 def run(ctx):
     try:
         cfg = read_cfg()
@@ -1532,20 +1578,35 @@ def run(ctx):
     budget_each = 0.8
     batch = []
     seen_sigs = set()
-    for i in range(n_seq):
-        if ctx.time_left() < 12:
-            ctx.notes.append("stopped after %d sequences (time)" % i)
-            break
-        size = ctx.rng.choice([1, 2, 2, 3, 4])
-        n_steps = ctx.rng.randint(2, 6)
+    probes = pyname_probes(ctx)
+    # the probes run AFTER the random sequences: `ctx.later` draws from ctx.rng once its reservoir is full, so anything
+    # inserted before them would shift every later random choice (and with it the classes other detections rely on)
+    stopped = False
+    for i in list(range(n_seq)) + list(range(-len(probes), 0)):
+        if i >= 0 and (stopped or ctx.time_left() < 12):
+            if not stopped:
+                ctx.notes.append("stopped after %d sequences (time)" % i)
+            stopped = True
+            continue
+        if i < 0 and ctx.time_left() < 5:
+            ctx.notes.append("probe pyname-through-camel-case skipped (time)")
+            continue
         try:
-            record, failures, schemas, dumper, msteps, base_world = one_sequence(ctx, i, size, n_steps)
+            if i < 0:
+                size, psteps, pseed = probes[i + len(probes)]
+                record, failures, schemas, dumper, msteps, base_world = one_sequence(
+                    ctx, "probe:pyname", size, len(psteps), steps=psteps, build_seed=pseed)
+                record["probe"] = "pyname-through-camel-case"
+            else:
+                size = ctx.rng.choice([1, 2, 2, 3, 4])
+                n_steps = ctx.rng.randint(2, 6)
+                record, failures, schemas, dumper, msteps, base_world = one_sequence(ctx, i, size, n_steps)
         except Exception as e:  # noqa
             import traceback
             ctx.fail("harness:internal:%s" % type(e).__name__, "sequence raised outside the code under test",
                      {"trace": traceback.format_exc()[-1500:]})
             continue
-        if i < 3:
+        if 0 <= i < 3:
             ctx.sample({"sdl_head": record["sdl"][:300], "steps": [{k: v for k, v in s.items() if k in ("op", "visitors", "status", "entries")}
                                                                    for s in record["steps"]][:3]})
         for sig, what in failures:
@@ -1561,9 +1622,18 @@ def run(ctx):
             msteps = []
         if cfg is not None and ctx.model_ok and msteps:
             try:
-                impl = W.canon(dumper.dump(schemas))
+                raw = dumper.dump(schemas)
+                impl = W.canon(raw)
+                record["_order"] = [[[n for n, _ in x["types"]], [n for n, _ in x["dirs"]]] for x in raw["schemas"]]
                 pyc = [not [b for b in W.closed_violations(x) if not b.startswith("implementations")] for x in schemas]
-                batch.append((to_model_request(base_world, msteps, cfg), impl, record, pyc))
+                req = to_model_request(base_world, msteps, cfg)
+                # the model gets the registries of the source in the code's dict order (canon sorts them)
+                sch0 = dict(req["schema"])
+                for which, k in (("types", 0), ("dirs", 1)):
+                    pos = {n: j for j, n in enumerate(record["_order"][0][k])}
+                    sch0[which] = sorted(sch0[which], key=lambda e: pos.get(e[0], len(pos)))
+                req["schema"] = sch0
+                batch.append((req, impl, record, pyc))
             except Exception as e:  # noqa
                 ctx.notes.append("dump failed: %s" % e)
     # --- correspondence with the heap model
@@ -1582,6 +1652,29 @@ def run(ctx):
                 ctx.fail("corr:heap-differs:%s" % (last["op"] + ("/" + "+".join(v["k"] for v in last.get("visitors", [])) if last["op"] == "transform" else "")),
                          "object graph of model and implementation differ (impl vs model): %s" % d,
                          {"record": record, "diff": d}, kind="correspondence")
+            # ORDER of the registries (Python dicts keep insertion order): `clone_types_order` (the clone lists its types in the
+            # order of Schema.__init__'s type map), `clone_refines_directives` (directives in the source's order), in-place
+            # replacement keeps positions. The order of `extend_schema`'s result is not modelled: results with an extension
+            # in their ancestry are only counted.
+            oks = [st for st in record["steps"] if st.get("status") == "ok"]
+            tainted = [False]
+            for st in oks:
+                src = st.get("src", 0)
+                tainted.append(st["op"] == "extend" or (tainted[src] if src < len(tainted) else True))
+            for i, (mo, io) in enumerate(zip(ans["schemas"], record.get("_order", []))):
+                if i == 0 or i - 1 >= len(oks):
+                    continue
+                opn = oks[i - 1]["op"]
+                for which, k in (("types", 0), ("dirs", 1)):
+                    m_names = [n for n, _ in mo[which]]
+                    if tainted[i]:
+                        ctx.stat("order:%s:%s:not-modelled(extension)" % (which, opn))
+                        continue
+                    ctx.stat("order:%s:%s:%s" % (which, opn, "same" if m_names == io[k] else "DIFFERS"))
+                    if m_names != io[k]:
+                        ctx.fail("corr:registry-order:%s:%s" % (which, opn),
+                                 "order of the %s dict after %s differs (impl vs model): %r vs %r" % (which, opn, io[k], m_names),
+                                 {"record": record, "schema_index": i, "impl": io[k], "model": m_names}, kind="correspondence")
             # the model's closedness verdicts = the oracle's
             if ans.get("closed") != pyc:
                 ctx.fail("corr:closed-verdict", "closedness verdict of the model (closedB) differs from the identity check on the live objects",
